@@ -5,6 +5,7 @@ PID=$1; DIR=$2; SID=$3
 cd /repo || exit 2
 git diff --quiet || { echo "repo dirty"; exit 2; }
 git apply "$DIR/patch.diff" || { echo "patch does not apply"; exit 2; }
+trap 'git -C /repo checkout -- .' EXIT INT TERM
 ( cd /verif && ./check $PID --tier quick > /tmp/seedtest_$SID.log 2>&1 ); RC=$?
 git -C /repo checkout -- .
 grep -E "VIOLATION|PASS|FAIL|KNOWN" /tmp/seedtest_$SID.log | cut -c1-400 | head -8
